@@ -362,6 +362,25 @@ func runPropose(c *ProposeCase, out *outcome) {
 	defer pcancel()
 	out.addPanic(guard(func() { svc.Propose(pctx, duty) }))
 
+	// Unblinding runs on goroutines the proposer starts itself and that outlive Propose: a relay
+	// that keeps failing is retried three times, 250 ms apart, before the goroutine looks at the
+	// (missing) response.  Wait for that, so that whatever happens there happens within this case.
+	if auctioneer != nil {
+		settle := false
+		for _, d := range auctioneer.doubles {
+			if d.spec.Script == "err" && d.calls.Load() > 0 {
+				for end := time.Now().Add(3 * time.Second); d.calls.Load() < 3 && time.Now().Before(end); {
+					time.Sleep(5 * time.Millisecond)
+				}
+				settle = true
+			}
+		}
+		if settle {
+			time.Sleep(270 * time.Millisecond)
+			out.label("propose:unblind-retries-exhausted")
+		}
+	}
+
 	delivered := int64(0)
 	var deliveredBlinded bool
 	for i, d := range doubles {
